@@ -271,15 +271,21 @@ class SqlSem:
         if "Table" in tf:
             t = tf["Table"]
             name = objname(t["name"])
-            if len(name) != 1:
+            if len(name) == 2 and self.db.has(".".join(name)) and name[0] not in env:
+                qualified = ".".join(name)       # schema.table: columns are reachable through the table's own name
+            elif len(name) != 1:
                 raise Unsupported("qualified table name")
-            name = name[0]
+            else:
+                qualified = None
+            name = name[-1]
             if t.get("args") or t.get("with_hints") or t.get("sample"):
                 raise Unsupported("table args")
             alias = t["alias"]["name"]["value"] if t.get("alias") else None
             if t.get("alias") and t["alias"].get("columns"):
                 raise Unsupported("alias column list")
-            if name in env:
+            if qualified is not None:
+                cols, rows = self.db.table(qualified)
+            elif name in env:
                 src = env[name]
                 cols, rows = [c.name for c in src.cols], src.rows
             elif self.db.has(name):
